@@ -762,6 +762,12 @@ func raceSuite(c *Ctx) []Finding {
 		}
 	}
 
+	// an item of more files than any fixed batch of concurrent reads is likely to hold
+	if sig, note := manyFilesSum(dir, 140+int(c.Seed%25), c.Seed); sig != "" {
+		bad(sig, note)
+	}
+	count("sum-many-files", "ok n>128")
+
 	// server: every endpoint in parallel
 	self, _ := os.Executable()
 	port := freePort()
@@ -871,7 +877,14 @@ var errStalled = errors.New("stalled: the command did not return in time")
 
 func execWithin(d time.Duration, run func() error) error {
 	done := make(chan error, 1)
-	go func() { done <- run() }()
+	go func() {
+		defer func() {
+			if r := recover(); r != nil {
+				done <- fmt.Errorf("panic: %v", r)
+			}
+		}()
+		done <- run()
+	}()
 	select {
 	case err := <-done:
 		return err
